@@ -319,7 +319,7 @@ func goroot() string {
 func builderSections(c *Ctx, rng *RNG) {
 	o := c.Out
 	nAssembled := 0
-	for k := 0; k < 40; k++ {
+	for k := 0; k < 160; k++ {
 		ctx := build.NewContext()
 		type sec struct {
 			name string
@@ -355,7 +355,7 @@ func builderSections(c *Ctx, rng *RNG) {
 					cur.data = append(cur.data, [2]int{off, 4})
 					ctx.AppendDatum(operand.U32(7))
 					desc = append(desc, "AppendDatum(U32)")
-				} else if len(cur.data) > 0 && rng.Chance(35) {
+				} else if len(cur.data) > 0 && rng.Chance(55) {
 					// a constant that starts inside an earlier one (and may run past the end of the section): refused,
 					// the section stays as it is
 					d := cur.data[rng.Intn(len(cur.data))]
@@ -381,6 +381,12 @@ func builderSections(c *Ctx, rng *RNG) {
 					desc = append(desc, fmt.Sprintf("AddDatum(%d, U64)", off))
 				}
 			}
+		}
+		// asking for the result is an observation: a generator that looks at it (to log the errors, say) before
+		// build.Generate asks again must not lose the refusals, which are the only trace of the dropped constants
+		if k%2 == 1 {
+			ctx.Result()
+			desc = append(desc, "Result() asked once before")
 		}
 		f, err := ctx.Result()
 		idx := o.AddCase(Case{Key: "data:builder-sections", Desc: strings.Join(desc, "; "), Input: map[string]any{"calls": desc}, Nontrivial: len(want) >= 2})
